@@ -170,6 +170,9 @@ def render_display(I, v, debug=False):
         return approx_debug(I, pv)
     if isinstance(pv, Opaque) and pv.kind == 'char':
         return [pv.state]
+    if isinstance(pv, Opaque) and pv.kind == 'DelayedFormat':
+        import models_chrono
+        return models_chrono.render_delayed(I, pv)
     if isinstance(pv, (VecObj, Slice, MapObj, Opaque)):
         return approx_debug(I, pv)
     raise Unsupported('display of %r' % (pv,))
